@@ -47,9 +47,16 @@ def install_ilp32():
     ns = types.SimpleNamespace(**{k: getattr(ctypes, k) for k in dir(ctypes) if not k.startswith('__')})
     ns.c_long, ns.c_ulong = ctypes.c_int32, ctypes.c_uint32
     ns.c_ssize_t, ns.c_size_t = ctypes.c_int32, ctypes.c_uint32
+    import sys as _sys
+    sysns = types.SimpleNamespace(**{k: getattr(_sys, k) for k in dir(_sys) if not k.startswith('__')})
+    sysns.maxsize = 2 ** 31 - 1
     for mod in (bsd, dyld, fsystem, mach, perf, trace, turnstile):
         if hasattr(mod, 'ctypes'):
             mod.ctypes = ns
+        if hasattr(mod, 'sys'):
+            mod.sys = sysns
+        if hasattr(mod, 'maxsize'):
+            mod.maxsize = 2 ** 31 - 1
         for nm in ('c_long', 'c_ulong', 'c_ssize_t', 'c_size_t'):
             if hasattr(mod, nm):
                 setattr(mod, nm, getattr(ns, nm))
@@ -78,7 +85,11 @@ def main():
                 if t is None:
                     out.append({'none': True})
                 else:
-                    out.append({'text': str(t).encode('utf-8', 'surrogatepass').hex(), 'cls': type(t).__name__})
+                    text = str(t)
+                    if str(t) != text:           # a trace renders the same every time it is printed
+                        out.append({'err': 97, 'cls': 'TextChangesOnSecondStr', 'first': text, 'second': str(t)})
+                    else:
+                        out.append({'text': text.encode('utf-8', 'surrogatepass').hex(), 'cls': type(t).__name__})
             except ValueError as ex:
                 out.append({'err': 1, 'cls': type(ex).__name__})
             except IndexError:
